@@ -4,8 +4,10 @@ import (
 	"encoding/json"
 	"fmt"
 	"math/rand"
+	"os"
 	"sort"
 	"strings"
+	"sync"
 
 	"golang.org/x/mod/modfile"
 	"golang.org/x/mod/module"
@@ -592,7 +594,7 @@ func (w *modfileWorld) Check(c *core.Case) ([]core.Violation, bool) {
 	switch c.K {
 	case "session":
 		return checkSession(c)
-	case "bulk":
+	case "bulk", "bulkrec":
 		return checkBulk(c)
 	}
 	panic("modfile: unknown case kind " + c.K)
@@ -736,7 +738,143 @@ func describe(st *mfState, col string) string {
 	return fmt.Sprint(valueKeys(col, colOf(st, col), false))
 }
 
-func checkBulk(c *core.Case) ([]core.Violation, bool) { return nil, false }
+// ---- C16: bulk setters ----
+
+type bulkLine struct {
+	Tokens []string `json:"tokens"`
+	Cb     string   `json:"cb"`
+	Cs     string   `json:"cs"`
+}
+
+type bulkBlock struct {
+	Verb  string     `json:"verb"`
+	Block bool       `json:"block"`
+	Lines []bulkLine `json:"lines"`
+}
+
+// blockStructure reports the statements of a syntax tree: verb, whether it is a block, and per line the
+// tokens (without the verb) with the leading and end-of-line comment texts.
+func blockStructure(fs *modfile.FileSyntax) []bulkBlock {
+	var out []bulkBlock
+	for _, st := range fs.Stmt {
+		switch x := st.(type) {
+		case *modfile.Line:
+			if len(x.Token) == 0 {
+				continue
+			}
+			cb, cs := lineComments(x)
+			out = append(out, bulkBlock{Verb: x.Token[0], Lines: []bulkLine{{Tokens: append([]string{}, x.Token[1:]...), Cb: cb, Cs: cs}}})
+		case *modfile.LineBlock:
+			if len(x.Token) == 0 {
+				continue
+			}
+			b := bulkBlock{Verb: x.Token[0], Block: true, Lines: []bulkLine{}}
+			for _, l := range x.Line {
+				cb, cs := lineComments(l)
+				b.Lines = append(b.Lines, bulkLine{Tokens: append([]string{}, l.Token...), Cb: cb, Cs: cs})
+			}
+			out = append(out, b)
+		}
+	}
+	return out
+}
+
+var (
+	bulkTraceMu sync.Mutex
+	bulkTraceF  *os.File
+)
+
+func bulkTrace(ev any) {
+	path := os.Getenv("VERIF_BULK_TRACE")
+	if path == "" {
+		return
+	}
+	bulkTraceMu.Lock()
+	defer bulkTraceMu.Unlock()
+	if bulkTraceF == nil {
+		f, err := os.OpenFile(path, os.O_CREATE|os.O_WRONLY|os.O_APPEND, 0o644)
+		if err != nil {
+			panic(err)
+		}
+		bulkTraceF = f
+	}
+	b, _ := json.Marshal(ev)
+	bulkTraceF.Write(append(b, '\n'))
+}
+
+func checkBulk(c *core.Case) ([]core.Violation, bool) {
+	var in struct {
+		Kind   string   `json:"kind"`
+		Layout []mfStmt `json:"layout"`
+		Text   string   `json:"text"`
+		Op     mfOp     `json:"op"`
+		// recorded cases (bulkrec) carry what the predicates need themselves
+		Separable bool              `json:"separable"`
+		Gov       string            `json:"gov"`
+		Kept      []json.RawMessage `json:"kept"`
+	}
+	if err := json.Unmarshal(c.In, &in); err != nil {
+		panic(err)
+	}
+	var exp struct {
+		After     mfState           `json:"after"`
+		Separable bool              `json:"separable"`
+		Gov       string            `json:"gov"`
+		Kept      []json.RawMessage `json:"kept"`
+	}
+	json.Unmarshal(c.Exp, &exp)
+	if c.K == "bulkrec" {
+		exp.Separable, exp.Gov, exp.Kept = in.Separable, in.Gov, in.Kept
+	}
+	text := in.Text
+	if text == "" {
+		text = renderLayout(in.Layout)
+	}
+	f, err := parseMF(in.Kind, text)
+	if err != nil {
+		core.NoteDrift("bulk layout rejected by the parser: " + err.Error() + "\n" + text)
+		return nil, false
+	}
+	f.cleanup()
+	f.apply(in.Op)
+	f.cleanup()
+	data, err := f.format()
+	desc := fmt.Sprintf("%v on\n%s", in.Op, text)
+	if err != nil {
+		return []core.Violation{{Sig: "c16:" + in.Op.Name + ":format", What: "Format failed after " + desc + ": " + err.Error(), Case: c}}, true
+	}
+	g, err := parseMF(in.Kind, string(data))
+	if err != nil {
+		return []core.Violation{{Sig: "c16:" + in.Op.Name + ":output-does-not-parse", What: fmt.Sprintf("formatted file does not parse strictly (%v) after %s\noutput:\n%s", err, desc, data), Case: c}}, true
+	}
+	got, _ := g.project()
+	var vs []core.Violation
+	col := "require"
+	if in.Kind == "work" {
+		col = "use"
+	}
+	want := valueKeys(col, colOf(&exp.After, col), false)
+	have := valueKeys(col, colOf(&got, col), false)
+	if c.K == "bulk" && strings.Join(want, "|") != strings.Join(have, "|") {
+		vs = append(vs, core.Violation{Sig: "c16:" + in.Op.Name + ":set", What: fmt.Sprintf("after %s the file has %s directives %v, requested exactly %v\noutput:\n%s", desc, col, have, want, data), Case: c})
+	}
+	var syn *modfile.FileSyntax
+	if g.mod != nil {
+		syn = g.mod.Syntax
+	} else {
+		syn = g.work.Syntax
+	}
+	kept := []any{}
+	for _, k := range exp.Kept {
+		var x any
+		json.Unmarshal(k, &x)
+		kept = append(kept, x)
+	}
+	bulkTrace(map[string]any{"w": "modfile", "k": "bulk",
+		"in":  map[string]any{"kind": in.Kind, "op": in.Op.Name, "separable": exp.Separable, "gov": exp.Gov, "kept": kept, "text": text, "req": traceOp(in.Op)["l"]},
+		"obs": map[string]any{"blocks": blockStructure(syn)}})
+	return vs, true
+}
 
 // traceState renders a projection with every field present (TLA+ records need all their fields).
 func traceState(st *mfState) map[string]any {
@@ -948,5 +1086,210 @@ func (w *modfileWorld) Record(rng *rand.Rand, n int, emit func(k string, in, obs
 			emit("step", map[string]any{"op": traceOp(ops[i]), "i": i + 1},
 				map[string]any{"err": lastErr != nil, "file": traceState(&fileSt), "struct": traceState(&structSt), "holes": holes})
 		}
+	}
+}
+
+
+// ---- E3 for C16: random larger files and requests ----
+
+func init() { core.Register("modfilebulk", func() core.World { return &modfileBulkWorld{} }) }
+
+type modfileBulkWorld struct{ modfileWorld }
+
+func randBulkCase(rng *rand.Rand) (kind, text string, op mfOp, separable bool, gov string, kept []any) {
+	pick := func(xs ...string) string { return xs[rng.Intn(len(xs))] }
+	var sb strings.Builder
+	if rng.Intn(5) == 0 {
+		// go.work
+		kind = "work"
+		sb.WriteString("go 1.21\n")
+		dirs := []string{"./a", "./b", "./c", "./d", "../e", "./f/g"}
+		first := map[string][2]string{}
+		n := rng.Intn(7)
+		inBlock := false
+		for i := 0; i < n; i++ {
+			d := dirs[rng.Intn(len(dirs))]
+			cb, cs := "", ""
+			if rng.Intn(4) == 0 {
+				cb = fmt.Sprintf("lead%d", i)
+			}
+			if rng.Intn(4) == 0 {
+				cs = fmt.Sprintf("eol%d", i)
+			}
+			if _, ok := first[d]; !ok {
+				first[d] = [2]string{cb, cs}
+			}
+			if !inBlock && rng.Intn(2) == 0 {
+				sb.WriteString("use (\n")
+				inBlock = true
+			}
+			ind := ""
+			if inBlock {
+				ind = "\t"
+			}
+			if cb != "" {
+				sb.WriteString(ind + "// " + cb + "\n")
+			}
+			line := d
+			if !inBlock {
+				line = "use " + d
+			}
+			if cs != "" {
+				line += " // " + cs
+			}
+			sb.WriteString(ind + line + "\n")
+			if inBlock && rng.Intn(3) == 0 {
+				sb.WriteString(")\n")
+				inBlock = false
+			}
+		}
+		if inBlock {
+			sb.WriteString(")\n")
+		}
+		var l []json.RawMessage
+		seen := map[string]bool{}
+		for i, m := 0, rng.Intn(5); i < m; i++ {
+			d := dirs[rng.Intn(len(dirs))]
+			if seen[d] {
+				continue
+			}
+			seen[d] = true
+			b, _ := json.Marshal(d)
+			l = append(l, b)
+			if c, ok := first[d]; ok {
+				kept = append(kept, map[string]any{"p": d, "cb": c[0], "cs": c[1]})
+			}
+		}
+		return kind, sb.String(), mfOp{Name: "SetUse", L: l}, false, "1.21", kept
+	}
+	kind = "mod"
+	sb.WriteString("module example.com/m\n")
+	gov = pick("", "1.20", "1.21", "1.22rc1")
+	if gov != "" {
+		sb.WriteString("go " + gov + "\n")
+	}
+	npaths := 4 + rng.Intn(20)
+	paths := make([]string, npaths)
+	for i := range paths {
+		paths[i] = fmt.Sprintf("example.com/p%02d", rng.Intn(30))
+	}
+	first := map[string][2]string{}
+	stmts, commented := 0, false
+	inBlock := false
+	for i, p := range paths {
+		cb, cs := "", ""
+		if rng.Intn(6) == 0 {
+			cb = fmt.Sprintf("lead%d", i)
+			commented = true
+		}
+		ind := rng.Intn(3) == 0
+		if rng.Intn(6) == 0 {
+			cs = fmt.Sprintf("eol%d", i)
+			commented = true
+		}
+		if _, ok := first[p]; !ok {
+			first[p] = [2]string{cb, cs}
+		}
+		if !inBlock {
+			stmts++
+			if rng.Intn(3) != 0 {
+				if rng.Intn(8) == 0 {
+					sb.WriteString("// blockwhy\n")
+					commented = true
+				}
+				sb.WriteString("require (\n")
+				inBlock = true
+			}
+		}
+		tab := ""
+		if inBlock {
+			tab = "\t"
+		}
+		if cb != "" {
+			sb.WriteString(tab + "// " + cb + "\n")
+		}
+		line := fmt.Sprintf("%s v1.%d.0", p, rng.Intn(12))
+		if !inBlock {
+			line = "require " + line
+		}
+		switch {
+		case ind && cs != "":
+			line += " // indirect; " + cs
+		case ind:
+			line += " // indirect"
+		case cs != "":
+			line += " // " + cs
+		}
+		sb.WriteString(tab + line + "\n")
+		if inBlock && rng.Intn(6) == 0 {
+			sb.WriteString(")\n")
+			inBlock = false
+		}
+	}
+	if inBlock {
+		sb.WriteString(")\n")
+	}
+	sb.WriteString("exclude (\n")
+	for i := 0; i < 2+rng.Intn(5); i++ {
+		sb.WriteString(fmt.Sprintf("\texample.com/p%02d v1.%d.0\n", rng.Intn(4), rng.Intn(12)))
+	}
+	sb.WriteString(")\nretract (\n")
+	for i := 0; i < 2+rng.Intn(4); i++ {
+		lo := rng.Intn(12)
+		if rng.Intn(2) == 0 {
+			sb.WriteString(fmt.Sprintf("\tv1.%d.0\n", lo))
+		} else {
+			sb.WriteString(fmt.Sprintf("\t[v1.%d.0, v1.%d.0]\n", lo, lo+rng.Intn(4)))
+		}
+	}
+	sb.WriteString(")\n")
+	var l []json.RawMessage
+	seen := map[string]bool{}
+	for i, m := 0, rng.Intn(16); i < m; i++ {
+		p := fmt.Sprintf("example.com/p%02d", rng.Intn(34))
+		if seen[p] {
+			continue
+		}
+		seen[p] = true
+		b, _ := json.Marshal(reqL{P: p, V: fmt.Sprintf("v1.%d.0", rng.Intn(12)), Ind: rng.Intn(2) == 0})
+		l = append(l, b)
+		if c, ok := first[p]; ok {
+			kept = append(kept, map[string]any{"p": p, "cb": c[0], "cs": c[1]})
+		}
+	}
+	return kind, sb.String(), mfOp{Name: pick("SetRequire", "SetRequireSeparateIndirect"), L: l}, stmts == 1 && !commented, gov, kept
+}
+
+func (w *modfileBulkWorld) Record(rng *rand.Rand, n int, emit func(k string, in, obs any)) {
+	for i := 0; i < n; i++ {
+		kind, text, op, separable, gov, kept := randBulkCase(rng)
+		f, err := parseMF(kind, text)
+		if err != nil {
+			continue
+		}
+		f.cleanup()
+		f.apply(op)
+		f.cleanup()
+		data, err := f.format()
+		if err != nil {
+			continue
+		}
+		g, err := parseMF(kind, string(data))
+		if err != nil {
+			emit("bulk", map[string]any{"kind": kind, "op": op.Name, "separable": separable, "gov": gov, "kept": []any{}, "text": text, "req": traceOp(op)["l"]},
+				map[string]any{"blocks": []any{}, "parseError": err.Error()})
+			continue
+		}
+		var syn *modfile.FileSyntax
+		if g.mod != nil {
+			syn = g.mod.Syntax
+		} else {
+			syn = g.work.Syntax
+		}
+		if kept == nil {
+			kept = []any{}
+		}
+		emit("bulk", map[string]any{"kind": kind, "op": op.Name, "separable": separable, "gov": gov, "kept": kept, "text": text, "req": traceOp(op)["l"]},
+			map[string]any{"blocks": blockStructure(syn)})
 	}
 }
